@@ -114,6 +114,12 @@ def xslt_stylesheet(case):
              '<xsl:choose><xsl:when test="boolean(%s)">T</xsl:when><xsl:otherwise>F</xsl:otherwise></xsl:choose>' % esc),
         pair('value-of', '<xsl:value-of select="%s"/>' % esc, '<xsl:value-of select="string(%s)"/>' % esc),
         pair('var-string', '<xsl:variable name="v" select="%s"/><xsl:value-of select="$v"/>' % esc, '<xsl:value-of select="string(%s)"/>' % esc),
+        # xsl:value-of streams the string-value as character events (also for string(E): the function hands the events on); a variable
+        # bound to string(E) holds the string computed by the generic evaluation
+        pair('value-of-vs-string-variable', '<xsl:value-of select="%s"/>' % esc, '<xsl:variable name="s" select="string(%s)"/><xsl:value-of select="$s"/>' % esc),
+        # ... and string(E) itself streams events into a string; an argument of concat() is converted by the string form of the conversion
+        pair('value-of-vs-concat', '<xsl:value-of select="%s"/>' % esc, '<xsl:value-of select="concat(%s, \'\')"/>' % esc),
+        pair('string-length', '<xsl:value-of select="string-length(%s)"/>' % esc, '<xsl:variable name="s" select="string(%s)"/><xsl:value-of select="string-length($s)"/>' % esc),
         pair('var-boolean', '<xsl:variable name="v" select="%s"/><xsl:if test="$v">T</xsl:if>' % esc, '<xsl:if test="boolean(%s)">T</xsl:if>' % esc),
         pair('var-number', '<xsl:variable name="v" select="%s"/><xsl:value-of select="$v + 0"/>' % esc, '<xsl:value-of select="number(%s) + 0"/>' % esc),
         pair('with-param', '<xsl:call-template name="show"><xsl:with-param name="x" select="%s"/></xsl:call-template>' % esc,
@@ -167,7 +173,7 @@ def check_xslt(ctx, case):
     for m in re.finditer(r'<p k="([^"]+)">(<a/>|<a>.*?</a>)(<b/>|<b>.*?</b>)</p>', out, re.S):
         pairs.append((m.group(1), '' if m.group(2) == '<a/>' else m.group(2)[3:-4], '' if m.group(3) == '<b/>' else m.group(3)[3:-4]))
     nctx = out.count('<c>') + out.count('<c/>')
-    if nctx and len(pairs) != nctx * (11 + ('{' not in case['expr'] and '}' not in case['expr']) + 3 * (case['kind'] == 'ns')):
+    if nctx and len(pairs) != nctx * (14 + ('{' not in case['expr'] and '}' not in case['expr']) + 3 * (case['kind'] == 'ns')):
         raise RuntimeError('harness: cannot parse the consumer pairs: %r' % out[:300])
     ctx.note({'x': case['xml'], 'e': case['expr'], 'm': 'xslt', 's': case['ctxsel']}, nctx >= 1,
              ['mode:xslt', 'xslt-kind:' + case['kind'], 'xslt-contexts:%s' % ('0' if nctx == 0 else '1' if nctx == 1 else '2+'),
